@@ -275,12 +275,12 @@ func (b *Bitmap) AddN(a ...uint64) (changed int, err error) {
 // Container objects returned from calls like Get and GetOrCreate, this
 // optimization would be less useful.
 func (b *Bitmap) DirectAddN(a ...uint64) (changed int) {
-	return b.directOpN((*Container).add, a...)
+	return b.directOpN((*Container).add, true, a...)
 }
 
 // DirectRemoveN behaves analgously to DirectAddN.
 func (b *Bitmap) DirectRemoveN(a ...uint64) (changed int) {
-	return b.directOpN((*Container).remove, a...)
+	return b.directOpN((*Container).remove, false, a...)
 }
 
 // directOpN contains the logic for DirectAddN and DirectRemoveN. Theoretically,
@@ -288,13 +288,22 @@ func (b *Bitmap) DirectRemoveN(a ...uint64) (changed int) {
 // container level operation across a list of values and return the number of
 // trues while modifying the list of values in place to contain the
 // true-returning values in order.
-func (b *Bitmap) directOpN(op func(c *Container, v uint16) (*Container, bool), a ...uint64) (changed int) {
+//
+// create tells whether a container is created for a key the bitmap does not
+// hold yet. A remove must not do that: it would leave an empty container
+// behind, which container walks (e.g. the list of rows of a fragment) report
+// as present until the bitmap is re-read from its file.
+func (b *Bitmap) directOpN(op func(c *Container, v uint16) (*Container, bool), create bool, a ...uint64) (changed int) {
 	hb := uint64(0xFFFFFFFFFFFFFFFF) // impossible sentinel value
 	var cont *Container
 	for _, v := range a {
 		if newhb := highbits(v); newhb != hb {
 			hb = newhb
-			cont = b.Containers.GetOrCreate(hb)
+			if create {
+				cont = b.Containers.GetOrCreate(hb)
+			} else {
+				cont = b.Containers.Get(hb)
+			}
 		}
 		newC, change := op(cont, lowbits(v))
 		if change {
